@@ -13,6 +13,8 @@ time of day; 20 -> compound tenors with the small part first. 12, 15, 16, 18 do 
 Classes 21-29 (second pass): 21 -> both endpoints zone-aware in one fixed-offset zone (`tz`); 27 -> t1 a few microseconds short of / past a step, endpoints a few
 microseconds apart (`eps_us`, timedelta bumps); 29 -> zero bumps get their own label. 22 (Calendar window that does not contain the range) and 28 (the session empties
 every list it was handed) were there already; 23-26 do not apply (no renames, compiled objects, arrays; bump=None is not a bump of the statement).
+Classes 30-40 (third pass): 33 -> endpoints as ISO text / 'yyyymmdd' / int yyyymmdd / int year (`endpoint_as_text_or_int`, in `drange` and `session`); 32 -> starts and timedelta bumps at microsecond
+resolution (`microsecond_start`, `microsecond_bump`); 30 -> sub-check `relative`: t1 left to its default (today), t0 / t1 as offsets from today, bracketed by two clock readings of the harness.
 """
 import datetime
 import json
@@ -47,6 +49,15 @@ ASSUMPTIONS = [
     'finding F37, fixed in /repo (replay replays/C10/F37-*.json): generated by default, left out only with PV_C10_EXCLUDE_FIXED=1',
     'microsecond near misses (t1 1-7 microseconds short of / past a whole number of steps, endpoints 1-7 microseconds apart) only with timedelta bumps in `drange` (the statement puts intraday endpoints with timedelta bumps; '
     'rrule works at second resolution; session arithmetic is in milliseconds)',
+    'endpoints as text / int (class 33; 8% of the cases of `drange` and `session`, drawn where the class-13 raw types were not): only the spellings dt() and drange document and that cannot be read as a bump - '
+    '"yyyy-mm-dd" (any day, so day <= 12 occurs), "yyyy-mm-dd HH:MM:SS", "yyyymmdd", int yyyymmdd, and the int year (drange(2000, ...)) for a start moved to 1 Jan at midnight; an instant with microseconds, '
+    'or a zone-aware one, stays a datetime (the documented spellings stop at the second and carry no zone). Excel / ordinal / unix numbers and d-m-y texts are left out: they are dialect questions of dt(), not of drange',
+    'microsecond resolution (class 32) only with timedelta bumps in `drange`: a start carrying microseconds (a quarter of the timedelta cases), and - where the class-27 near miss was not drawn - bumps of 1 us .. 1 s + 1 us '
+    'with t1 a whole number of steps from t0, one microsecond short of / past it, or half a step further (spans inside one millisecond included). Period strings stay at second resolution (rrule drops microseconds)',
+    'relative / default endpoints (class 30, sub-check `relative`): the statement speaks of drange(t0, t1, bump); what an omitted t1 or an int / "-kd" endpoint MEANS is taken from the docstrings of date_range and drange '
+    '(t1 omitted = today at midnight; an int below 1500 or a period string as t0 = that far from today, as t1 = that far from t0 when t0 is a date, from today when t0 is relative too). Only the forms in which the list '
+    'still starts at the t0 handed over are generated: t0 never after today when t1 is omitted (date_range sorts the two, the list would start at today), offsets of t0 <= 0, whole days; bump=None, t0=None (1900) stay outside. '
+    'The harness reads the clock before and after the call and accepts the reference from either reading; a memoised "today" that goes stale at midnight cannot be seen within one run (no clock hook)',
 ]
 
 # zone-aware endpoints with a month-based part that drange iterates through dt_bump ('-1m' backwards, '0m', every compound tenor with m / q / y): dt_bump builds the
@@ -133,6 +144,10 @@ _SMALL_FIRST = ('dm', 'my', 'hd', 'dw', '-dm', '-dw')
 _BOUNDARY_KINDS = ('int', 'td_days', 'td_intraday', 'd', 'w', 'b', 'hns')
 _KINDS = ['int', 'int', 'td_days', 'td_intraday', 'td_subsecond', 'd', 'w', 'b', 'b', 'month', 'month', 'hns', 'compound', 'compound', 'equal']
 _RAW_TAGS = ['dt', 'date', 'np_D', 'np_s', 'np_us', 'np_ns', 'ts']
+# class 33: the endpoints as TEXT / int in the spellings dt() documents - 'yyyy-mm-dd' (day <= 12 included: the uk dialect must not read it as d-m), 'yyyy-mm-dd HH:MM:SS',
+# 'yyyymmdd', int yyyymmdd, and the int year of drange's own docstring (drange(2000, 10, 1)) for a 1 Jan; mixed with datetime / Timestamp / date for the other endpoint
+_TEXT_TAGS = ('iso', 'iso_time', 'text8', 'int8', 'year')
+_TEXT_MIX = ['iso', 'iso', 'iso_time', 'iso_time', 'text8', 'int8', 'year', 'dt', 'ts', 'date']
 
 
 def _frac(draw, days, nel):
@@ -240,6 +255,24 @@ def _near_miss(draw, spec, step_ms, nel, sgn):
     spec['eps_us'] = sgn * eps
 
 
+def _t0_us(draw, spec):
+    """class 32: a start that carries microseconds (every element of the list then does): a normaliser flooring to the millisecond / second moves the whole list"""
+    if not draw(st.integers(0, 3)):
+        spec['t0_us'] = draw(st.sampled_from([1, 7, 500, 999, 1001, 123456, 999999]))
+
+
+def _micro(draw, spec, sgn, bs):
+    """class 32: everything at microsecond resolution - a timedelta bump of some microseconds (also 1 ms +- 1 us, 1 s + 1 us), t1 a whole number of steps from t0, one microsecond
+    short of / past that, or half a step further; spans shorter than a millisecond included (both endpoints inside one millisecond)"""
+    if draw(st.integers(0, 2)):
+        return
+    step = draw(st.sampled_from([1, 3, 250, 999, 1001, 1500, 1000001]))
+    nel = draw(st.integers(0, 40))
+    end = draw(st.sampled_from(['on_step', 'one_short', 'one_past', 'half']))
+    span = max(1, nel * step + dict(on_step=0, one_short=-1, one_past=1, half=step // 2)[end])
+    spec.update(span_us=sgn * span, span_s=sgn * span / 1e6, bump=['tdus', bs * step], us_end=end if nel else 'short')
+
+
 @st.composite
 def _case(draw, session=False):
     kind = draw(st.sampled_from(_KINDS if session else _KINDS * 3 + ['long']))
@@ -274,6 +307,7 @@ def _case(draw, session=False):
         spec.update(t0=[o, draw(st.sampled_from([0, 0, 7200]))], span_s=sgn * _frac(draw, span, nel), bump=['td', bs * n * 86400])
         if not session:
             _near_miss(draw, spec, n * 86400000, nel, sgn)
+            _t0_us(draw, spec)
     elif kind == 'td_subsecond':      # the timedelta branch is a plain loop: sub-second steps are valid there (milliseconds in the spec)
         step = draw(st.sampled_from([100, 250, 1100, 1, 333, 7]))
         nel = draw(st.integers(0, 40))
@@ -281,6 +315,9 @@ def _case(draw, session=False):
         spec.update(t0=[o, draw(st.integers(0, 86399))], span_s=sgn * span / 1000.0, bump=['tdms', bs * step], route='drange')
         if not session:
             _near_miss(draw, spec, step, nel, sgn)
+            if 'eps_us' not in spec:                              # only where class 27 did not fire: its rates stay what they were
+                _micro(draw, spec, sgn, bs)
+            _t0_us(draw, spec)
     elif kind == 'td_intraday':
         step = draw(st.sampled_from([1, 30, 60, 900, 3600, 5400, 21600, 86400 + 3600])) if draw(st.integers(0, 6)) else 0
         nel = draw(st.integers(0, 80))
@@ -288,6 +325,7 @@ def _case(draw, session=False):
         spec.update(t0=[o, draw(st.integers(0, 86399))], span_s=sgn * span, bump=['td', bs * step])
         if not session:
             _near_miss(draw, spec, step * 1000, nel, sgn)
+            _t0_us(draw, spec)
     elif kind in ('d', 'w'):
         n = draw(st.integers(1, 9)) if draw(st.sampled_from([1] * 11 + [0])) else 0
         mult = 1 if kind == 'd' else 7
@@ -334,6 +372,10 @@ def _case(draw, session=False):
             span = draw(st.integers(1, 400)) * 86400
         spec.update(t0=[o, sec], span_s=sgn * span, bump=tenor, form=form)
     raw = _raw(draw)
+    if raw is None and not draw(st.integers(0, 8)):               # class 33, drawn only where class 13 did not fire: the rates of the class-13 labels stay what they were
+        raw = [draw(st.sampled_from(_TEXT_MIX)), draw(st.sampled_from(_TEXT_MIX)), 'py']
+        if raw[0] == 'year':                                      # drange(2000, ...): the int year spells 1 Jan at midnight - the start is moved there (a day every kind of bump may start from)
+            spec['t0'] = [datetime.date(datetime.date.fromordinal(spec['t0'][0]).year, 1, 1).toordinal(), 0]
     if raw:
         spec['raw'] = raw
     if spec['route'] == 'calendar':
@@ -348,7 +390,7 @@ def _case(draw, session=False):
 
 def _bump_obj(b):
     if isinstance(b, list):
-        return datetime.timedelta(milliseconds=b[1]) if b[0] == 'tdms' else datetime.timedelta(seconds=b[1])
+        return datetime.timedelta(milliseconds=b[1]) if b[0] == 'tdms' else datetime.timedelta(microseconds=b[1]) if b[0] == 'tdus' else datetime.timedelta(seconds=b[1])
     return b
 
 
@@ -359,6 +401,18 @@ def raw_instant(t, tag):
     import numpy as np
     import pandas as pd
     midnight = (t.hour, t.minute, t.second, t.microsecond) == (0, 0, 0, 0)
+    if tag in _TEXT_TAGS:
+        if t.microsecond:
+            return t                                           # the documented spellings stop at the second
+        if tag == 'iso_time' or not midnight:
+            return t.strftime('%Y-%m-%d %H:%M:%S')
+        if tag == 'iso':
+            return t.strftime('%Y-%m-%d')
+        if tag == 'text8':
+            return t.strftime('%Y%m%d')
+        if tag == 'year' and (t.month, t.day) == (1, 1):
+            return t.year
+        return t.year * 10000 + t.month * 100 + t.day
     if tag == 'date':
         return datetime.date(t.year, t.month, t.day) if midnight else pd.Timestamp(t)
     if tag == 'np_D' and midnight:
@@ -508,18 +562,26 @@ def _type_classes(a0, a1, b):
                 cls.append('raw_endpoint=' + type(a).__name__)
         if type(a0) is not type(a1):
             cls.append('raw_endpoints_of_two_types')
+        for a in (a0, a1):                       # class 33
+            if type(a) is str:
+                form = {10: 'iso', 19: 'iso_with_time', 8: 'yyyymmdd'}[len(a)]
+                cls += ['endpoint_as_text_or_int', 'endpoint_text_' + form]
+                if form == 'iso' and int(a[8:]) <= 12:
+                    cls.append('endpoint_text_iso_day<=12')
+            elif type(a) is int:
+                cls += ['endpoint_as_text_or_int', 'endpoint_int_yyyymmdd' if a > 10000 else 'endpoint_int_year']
     if not isinstance(b, str) and type(b) not in (int, datetime.timedelta):
         cls.append('raw_bump_type')
         cls.append('raw_bump=' + type(b).__name__)
-    return cls
+    return list(dict.fromkeys(cls))
 
 
 def run_drange(spec):
     from pyg_base import drange
-    t0 = mkdt(*spec['t0'])
+    t0 = mkdt(*spec['t0']) + datetime.timedelta(microseconds=spec.get('t0_us', 0))
     span_ms = round(spec['span_s'] * 1000)
     eps_us = spec.get('eps_us', 0)
-    t1 = t0 + datetime.timedelta(milliseconds=span_ms, microseconds=eps_us)
+    t1 = t0 + (datetime.timedelta(microseconds=spec['span_us']) if 'span_us' in spec else datetime.timedelta(milliseconds=span_ms, microseconds=eps_us))
     bump = _bump_obj(spec['bump'])
     kind = spec['kind']
     raw = spec.get('raw') or ['dt', 'dt', 'py']
@@ -591,6 +653,17 @@ def run_drange(spec):
                 cls.append('near_miss_endpoints_microseconds_apart_wrong_direction')
         elif step_us and exp is not None and (abs(span_ms) * 1000) % step_us == 0:
             cls.append('near_miss_t1_just_short_of_a_step' if (eps_us < 0) == (span_ms > 0) else 'near_miss_t1_just_past_a_step')
+    # ---- classes of the third pass (bug classes 32, 33; 30 is the sub-check `relative`)
+    if spec.get('t0_us'):
+        cls.append('microsecond_start')
+        if n >= 3:
+            cls.append('microsecond_start_3+')
+    if 'span_us' in spec:
+        cls += ['microsecond_bump', 'microsecond_bump_' + spec['us_end']]
+        if t0 != t1 and t0.replace(microsecond=t0.microsecond // 1000 * 1000) == t1.replace(microsecond=t1.microsecond // 1000 * 1000):
+            cls.append('microsecond_endpoints_inside_one_millisecond')
+        if n >= 3:
+            cls.append('microsecond_bump_3+')
     if _is_zero_bump(bump):
         cls.append('zero_bump')
     return dict(nt=bool(_is_nt(kind, spec['back'], spec['bump'], exp)), cls=cls)
@@ -717,6 +790,116 @@ def run_session(spec):
     return dict(nt=bool(nt), cls=sorted(set(cls)))
 
 
+# ----------------------------------------------------------------------------- endpoints relative to today / left to their default (class 30)
+
+_REL_FORMS = ['t1_omitted', 't1_omitted', 't0_offset', 't0_offset', 'both_offsets', 't1_offset_from_t0']
+
+
+@st.composite
+def _relative_case(draw):
+    """the forms of date_range's docstring: drange(t0, bump=b) / drange(t0, None, b) (t1 = today), drange(-k, None, b) and drange('-kd', None, b) (k days ago .. today),
+    drange(-k, m, b) (both relative to today), drange(t0, m, b) (t1 = t0 + m days). The spec holds offsets only; `run` reads the clock"""
+    form = draw(st.sampled_from(_REL_FORMS))
+    btype = draw(st.sampled_from(['int', 'int', 'td_days', 'td_hours', 'd', 'w', 'b', 'h']))
+    n = draw(st.integers(1, 7))
+    k = draw(st.integers(1, 400)) if draw(st.integers(0, 19)) else 0
+    spec = dict(form=form, k=k, right=draw(st.sampled_from([True] * 7 + [False])), btype=btype, n=n,
+                route='drange' if btype == 'b' else draw(st.sampled_from(['drange', 'drange', 'drange', 'calendar'])))
+    if form == 't1_omitted':
+        spec['explicit_none'] = draw(st.booleans())
+        spec['sec'] = draw(st.sampled_from([0, 0, 3600, 86399])) if btype in ('td_hours', 'h') and k else 0
+        spec['raw0'] = draw(st.sampled_from(['dt', 'dt', 'date', 'iso', 'int8', 'ts']))
+    elif form == 't0_offset':
+        spec['explicit_none'] = draw(st.booleans())
+        spec['text'] = draw(st.sampled_from([False, False, True]))
+    elif form == 'both_offsets':
+        d = draw(st.integers(1, 120))
+        spec['m'] = {'fwd': d - k, 'back': -k - d, 'equal': -k, 'today': 0}[draw(st.sampled_from(['fwd', 'fwd', 'fwd', 'back', 'back', 'equal', 'today', 'today']))]
+    else:
+        spec['o'] = draw(_ord)
+        spec['m'] = draw(st.integers(1, 400)) * draw(st.sampled_from([1, 1, -1])) if draw(st.integers(0, 19)) else 0
+    return spec
+
+
+def _harness_today():
+    now = datetime.datetime.now()
+    return datetime.datetime(now.year, now.month, now.day)
+
+
+def _relative_endpoints(spec, today, t0_abs):
+    form, k = spec['form'], spec['k']
+    if form == 't1_omitted':
+        return t0_abs, today
+    if form == 't0_offset':
+        return today - k * DAY, today
+    if form == 'both_offsets':
+        return today - k * DAY, today + spec['m'] * DAY
+    return t0_abs, t0_abs + spec['m'] * DAY
+
+
+def run_relative(spec):
+    from pyg_base import drange, Calendar
+    form, k, n = spec['form'], spec['k'], spec['n']
+    before = _harness_today()
+    # ---- the arguments
+    t0_abs = None
+    if form == 't1_omitted':
+        t0_abs = before - k * DAY + datetime.timedelta(seconds=spec['sec'])      # never after today: k >= 1 when there is a time of day
+        a0 = raw_instant(t0_abs, spec['raw0'])
+    elif form == 't1_offset_from_t0':
+        t0_abs = a0 = mkdt(spec['o'])
+    else:
+        a0 = '-%id' % k if spec.get('text') else -k
+    a1 = spec['m'] if 'm' in spec else None
+    t0, t1 = _relative_endpoints(spec, before, t0_abs)
+    fwd = t1 >= t0
+    bs = (1 if fwd else -1) * (1 if spec['right'] else -1)
+    bt = spec['btype']
+    bump = {'int': bs * n, 'td_days': datetime.timedelta(bs * n), 'td_hours': datetime.timedelta(hours=6 * bs * n), 'd': '%id' % (bs * n), 'w': '%iw' % (bs * n),
+            'b': '%ib' % (bs * n), 'h': '%ih' % (6 * bs * n)}[bt]
+    f = drange if spec['route'] == 'drange' else Calendar('pv').drange
+    omitted = form in ('t1_omitted', 't0_offset') and not spec['explicit_none']
+    what = '%sdrange(%r, bump = %r)' % ('' if spec['route'] == 'drange' else 'Calendar.', a0, bump) if omitted else _what(spec['route'], a0, a1, bump)
+    exp = expected(t0, t1, bump)
+    limit = 2 * fuel_limit(exp, bump, (t1 - t0) // datetime.timedelta(milliseconds=1)) + 60000
+    status, res = invoke(what, (lambda x, _, b: f(x, bump=b)) if omitted else f, a0, a1, bump, limit, exp)
+    after = _harness_today()
+    # ---- the verdict: the library read the clock between the two readings of the harness; the reference computed from either reading is accepted
+    try:
+        judge(what + ' [today = %s]' % before.date(), status, res, exp, t0, t1)
+    except Violation:
+        if after == before:
+            raise
+        t0, t1 = _relative_endpoints(spec, after, t0_abs)
+        exp = expected(t0, t1, bump)
+        judge(what + ' [today = %s or %s]' % (before.date(), after.date()), status, res, exp, t0, t1)
+    ln = len(exp) if exp else 0
+    cls = ['form=' + form, 'bump=' + bt, 'route=' + spec['route'], 'wrong_direction' if exp is None else 'n=%s' % ('1-2' if ln < 3 else '3+')]
+    if omitted:
+        cls.append('t1_left_out')
+    elif a1 is None:
+        cls.append('t1_none_explicit')
+    if form in ('t0_offset', 'both_offsets'):
+        cls.append('t0_relative_to_today')
+        if ln >= 3:
+            cls.append('t0_relative_to_today_3+')
+        if type(a0) is str:
+            cls.append('t0_offset_as_text')
+        if k == 0:
+            cls.append('t0_offset_zero')
+    if form == 't1_omitted':
+        cls.append('t1_defaults_to_today')
+        if ln >= 3:
+            cls.append('t1_defaults_to_today_3+')
+        if type(a0) is not datetime.datetime:
+            cls.append('t1_defaults_to_today_raw_t0')
+    if form == 'both_offsets' and not fwd:
+        cls.append('both_offsets_backwards')
+    if t0 == t1:
+        cls.append('endpoints_equal')
+    return dict(nt=bool(exp is None or ln >= 3), cls=cls)
+
+
 # class floors: the seven of the first rounds, then (generalisation pass) about a third of the rate seen over seeds 1-3
 DRANGE_FLOORS = {
     'endpoints_not_whole_days_apart': 0.08, 'endpoints_less_than_a_day_apart': 0.004, 'from_28_feb_non_leap': 0.02, 'wrong_direction_or_zero': 0.1, 'negative_direction_3+': 0.1, 'kind=compound': 0.05, 'kind=b': 0.05,
@@ -728,11 +911,24 @@ DRANGE_FLOORS = {
     'zone_aware_endpoints': 0.025, 'zone_aware_3+': 0.012, 'zone_aware_period_string_3+': 0.006,
     'near_miss_microseconds': 0.011, 'near_miss_t1_just_short_of_a_step': 0.0027, 'near_miss_t1_just_past_a_step': 0.002, 'near_miss_endpoints_microseconds_apart': 0.003,
     'near_miss_endpoints_microseconds_apart_wrong_direction': 0.0012, 'zero_bump': 0.015,
+    # third pass (classes 32, 33)
+    'microsecond_start': 0.016, 'microsecond_start_3+': 0.009, 'microsecond_bump': 0.004, 'microsecond_bump_3+': 0.0025, 'microsecond_bump_on_step': 0.0007, 'microsecond_bump_one_short': 0.0008,
+    'microsecond_bump_one_past': 0.0008, 'microsecond_bump_half': 0.0004, 'microsecond_endpoints_inside_one_millisecond': 0.0006,
+    'endpoint_as_text_or_int': 0.013, 'endpoint_text_iso': 0.0025, 'endpoint_text_iso_day<=12': 0.0007, 'endpoint_text_iso_with_time': 0.008, 'endpoint_text_yyyymmdd': 0.0013, 'endpoint_int_yyyymmdd': 0.0022,
+    'endpoint_int_year': 0.0016,
 }
 SESSION_FLOORS = {
     'op=same': 0.17, 'op=extend': 0.045, 'op=shorten': 0.035, 'op=reverse': 0.09, 'op=negate': 0.04, 'op=other': 0.045, 'later_call_3+': 0.15, 'later_call_wrong_direction': 0.09,
     'calls=3': 0.06, 'calls=4': 0.1, 'raw_endpoint_type': 0.08, 'raw_bump_type': 0.01, 'calendar_with_options': 0.03, 'kind=b': 0.045, 'kind=compound': 0.045, 'kind=month': 0.04, 'kind=equal': 0.014,
     'zone_aware_endpoints': 0.04,
+    'endpoint_as_text_or_int': 0.02, 'endpoint_text_iso': 0.004, 'endpoint_text_iso_with_time': 0.013, 'endpoint_text_yyyymmdd': 0.001, 'endpoint_int_yyyymmdd': 0.0015,
+}
+
+# a third of the rates seen over seeds 1-3 (less for the classes whose rate swings between seeds)
+RELATIVE_FLOORS = {
+    'form=t1_omitted': 0.09, 'form=t0_offset': 0.08, 'form=both_offsets': 0.04, 'form=t1_offset_from_t0': 0.07, 'wrong_direction': 0.025, 'n=3+': 0.15, 't1_left_out': 0.085, 't1_none_explicit': 0.07,
+    't0_relative_to_today': 0.14, 't0_relative_to_today_3+': 0.07, 't0_offset_as_text': 0.022, 't0_offset_zero': 0.02, 't1_defaults_to_today': 0.09, 't1_defaults_to_today_3+': 0.04,
+    't1_defaults_to_today_raw_t0': 0.05, 'both_offsets_backwards': 0.005, 'endpoints_equal': 0.05, 'route=calendar': 0.035, 'bump=b': 0.03, 'bump=td_hours': 0.035,
 }
 
 SUBS = [
@@ -748,4 +944,10 @@ SUBS = [
              'negated or lengthened on the same endpoints; every call judged by the single-call oracle, every returned list emptied by the caller before the next call. '
              'non-trivial = some call of the session is non-trivial by the rule of `drange`',
         floor=0.3, class_floors=SESSION_FLOORS),
+    Sub('relative', lambda tier: _relative_case(), run_relative, quick=500, thorough=1500,
+        rule='endpoints left to their default or given relative to today, in the forms date_range documents: drange(t0, bump = b) and drange(t0, None, b) for a t0 up to 400 days ago (t1 = today at midnight), '
+             'drange(-k, None, b) / drange("-kd", None, b), drange(-k, m, b) (today - k days .. today + m days, either direction), drange(t0, m, b) (t1 = t0 + m days); bumps int / timedelta (days, hours) / d w b h, '
+             'right and wrong sign; module drange and Calendar.drange. The library reads the clock: the harness reads it before and after the call and accepts the reference list computed from either reading. '
+             'non-trivial = >= 3 elements or a wrong-direction case',
+        floor=0.3, class_floors=RELATIVE_FLOORS),
 ]
